@@ -11,6 +11,7 @@ import (
 	"encoding/binary"
 	"fmt"
 	"net/http"
+	"slices"
 	"strings"
 
 	"github.com/cespare/xxhash/v2"
@@ -192,6 +193,14 @@ func (d *DataSource) Load(ctx context.Context, headers http.Header, input []byte
 					results[index].entityIndexMap = newRequiredFieldsIndexMap(requiredFieldsEntityTypes(serviceCall.RPC), representations)
 				}
 
+				// A field resolver below _entities is called for the entities of one lookup only, so its
+				// results belong to the positions of that lookup's entity type.
+				if serviceCall.RPC.Kind == CallKindResolve && len(representations) > 0 {
+					if entityType := d.entityTypeOf(serviceCall.RPC); entityType != "" {
+						results[index].entityIndexMap = newRequiredFieldsIndexMap([]string{entityType}, representations)
+					}
+				}
+
 				return nil
 			})
 		}
@@ -205,7 +214,7 @@ func (d *DataSource) Load(ctx context.Context, headers http.Header, input []byte
 			case CallKindRequired:
 				err = builder.mergeRequiredFields(root, result)
 			case CallKindResolve:
-				err = builder.mergeWithPath(root, result.response, result.responsePath)
+				err = builder.mergeWithPath(root, result.response, result.responsePath, result.entityIndexMap)
 			default:
 				root, err = builder.mergeValues(root, result)
 			}
@@ -221,6 +230,26 @@ func (d *DataSource) Load(ctx context.Context, headers http.Header, input []byte
 
 	value := builder.toDataObject(root)
 	return value.MarshalTo(nil), err
+}
+
+// entityTypeOf returns the entity type of the lookup a call depends on, directly or through other
+// field resolvers. It returns an empty string for calls that are not below an entity lookup.
+func (d *DataSource) entityTypeOf(call *RPCCall) string {
+	for range d.plan.Calls {
+		if call.Kind == CallKindEntity {
+			return call.RequestedEntityType
+		}
+		if len(call.DependentCalls) == 0 {
+			return ""
+		}
+		// the calls of a plan are not ordered by their IDs
+		dependency := slices.IndexFunc(d.plan.Calls, func(c RPCCall) bool { return c.ID == call.DependentCalls[0] })
+		if dependency < 0 {
+			return ""
+		}
+		call = &d.plan.Calls[dependency]
+	}
+	return ""
 }
 
 func (d *DataSource) acquirePoolItem(input []byte, index int) *arena.PoolItem {
